@@ -70,7 +70,7 @@ def check(run):
         conc += [program(list(s), p, "dfs", n=cap, fine=1, preempt=0, epi=1 - (i + run.seed) % 2) for i, (s, p) in enumerate(progs)]
     # one call racing a two-call goroutine (1 x 2): every <= 2-preemption schedule, from a seeded sample of layouts x call triples
     triples = [(a, b, c) for a in ops for b in ops for c in ops]
-    n12 = 220 if q else len(triples) * len(lay)
+    n12 = 200 if q else len(triples) * len(lay)
     if q:
         for i in range(n12):
             a, b, c = run.rng.choice(triples)
@@ -89,9 +89,11 @@ def check(run):
     # every <= 2-preemption schedule of three calls on key 1, from the layouts that have key 1 in the read map
     inread = [sq for key, sq in layouts.items() if json.loads(key)[0][0] != -9]
     k1 = ops_over([1])[:-1]
-    three = [(sq, a, b, c) for sq in inread for a in k1 for b in k1 for c in k1]
-    for i, (sq, a, b, c) in enumerate(three if not q else run.rng.sample(three, 200)):
-        conc.append(program(list(sq), [[a], [b], [c]], "dfs", n=250, fine=0, preempt=2, epi=i % 2))
+    # (the goroutines are interchangeable, so the programs are the multisets of three calls: 35 per layout; at most 250 schedules of
+    #  each in the quick tier, 1500 in the thorough tier)
+    three = [(sq, a, b, c) for sq in inread for ia, a in enumerate(k1) for ib, b in enumerate(k1) for ic, c in enumerate(k1) if ia <= ib <= ic]
+    for i, (sq, a, b, c) in enumerate(three):
+        conc.append(program(list(sq), [[a], [b], [c]], "dfs", n=250 if q else 1500, fine=0, preempt=2, epi=i % 2))
     # 3 goroutines x 1 call and 2 goroutines x 2 calls: seeded random schedules (beyond the exhaustive bounds)
     rnd = []
     for i in range(60 if q else 1200):
